@@ -9,7 +9,8 @@
 //@ harness: name=c19_dwarf_numbers prop=C19,C05 unit=C19.dwarf_numbers mode=complete fn="Register::dwarf_register"
 //@ harness: name=c19_map_from_regs prop=C19,C05 unit=C19.map_from_regs mode=complete fn="DwarfRegisterMap::from(RegisterMap), DwarfRegisterMap::value" timeout=600
 //@ harness: name=c19_from_gimli prop=C19 unit=C19.from_gimli mode=complete fn="Register::from(gimli::Register)"
-//@ harness: name=c05_map_update prop=C05 unit=C05.map_update mode=complete fn="DwarfRegisterMap::update, DwarfRegisterMap::update_from" timeout=600
+//@ harness: name=c05_map_update prop=C05 unit=C05.map_update mode=complete fn="DwarfRegisterMap::update, DwarfRegisterMap::value" timeout=600
+//@ harness: name=c05_map_update_from prop=C05 unit=C05.map_update_from mode=complete fn="DwarfRegisterMap::update_from" timeout=600
 //@ harness: name=c15_regs_frame prop=C15,C16 unit=C15.regs mode=complete fn="RegisterMap::value, RegisterMap::update"
 //@ harness: name=c15_regs_conv prop=C15,C16 unit=C15.regs_conv mode=complete fn="RegisterMap::from(user_regs_struct), user_regs_struct::from(RegisterMap)"
 //@ notcovered: C19: finding the enclosing lexical block / first-match BFS over DIEs, location-list selection, frame selection; C05: CFI row lookup, register-rule evaluation, the unwind loop
@@ -105,10 +106,15 @@ fn c19_from_gimli() {
     }
 }
 
+fn any_dwarf_map() -> DwarfRegisterMap {
+    let buf: [Option<u64>; 0x80] = kani::any();
+    DwarfRegisterMap(SmallVec::from_buf(buf))
+}
+
 #[kani::proof]
-#[kani::unwind(160)]
+#[kani::unwind(130)]
 fn c05_map_update() {
-    let mut dm = DwarfRegisterMap::from(any_map());
+    let mut dm = any_dwarf_map();
     let i: u16 = kani::any();
     let j: u16 = kani::any();
     kani::assume(i < 0x80 && j < 0x80 && i != j);
@@ -117,14 +123,21 @@ fn c05_map_update() {
     dm.update(gimli::Register(i), v);
     assert!(dm.value(gimli::Register(i)).ok() == Some(v), "C05.map_update.E1 update(r,v) then value(r) == v");
     assert!(dm.value(gimli::Register(j)).ok() == before_j, "C05.map_update.E2 frame: every other register unchanged");
+    core::mem::forget(dm);
+}
+
+#[kani::proof]
+#[kani::unwind(130)]
+fn c05_map_update_from() {
     // update_from: index-wise `other[i].or(self[i])`
-    let mut other = DwarfRegisterMap::from(any_map());
-    let w: u64 = kani::any();
-    other.update(gimli::Register(20), w);
+    let mut dm = any_dwarf_map();
+    let other = any_dwarf_map();
+    let j: u16 = kani::any();
+    kani::assume(j < 0x80);
     let o_j = other.value(gimli::Register(j)).ok();
     let s_j = dm.value(gimli::Register(j)).ok();
     dm.update_from(&other);
-    assert!(dm.value(gimli::Register(j)).ok() == o_j.or(s_j), "C05.map_update.E3 update_from takes the incoming value where present and keeps the old one otherwise");
+    assert!(dm.value(gimli::Register(j)).ok() == o_j.or(s_j), "C05.map_update_from.E1 update_from takes the incoming value where present and keeps the old one otherwise");
     core::mem::forget((dm, other));
 }
 
